@@ -83,7 +83,16 @@ def one(ctx, pts, kind, queries, family, int_dtype=None):
                     if np.any(yh_ <= -1) or np.any(ys_ <= -1):
                         continue
                     ref = float(np.sum(np.square(np.log(ys_ + 1.0) - np.log(yh_ + 1.0))))
-                    if abs(e_f - ref) > 1e-9 * (abs(ref) + 1e-12 * len(xs_)):
+                    # rounding noise of the package's line m*x + b: delta ~ eps * (|m| max|x| + |b|) per fitted value; the logarithm turns it into a
+                    # relative perturbation delta / (y_hat + 1), which matters where byte-count sized heights come down to 0
+                    m_ = abs(float((ys_[-1] - ys_[0]) / (xs_[-1] - xs_[0])))
+                    delta_ = 16 * np.finfo(float).eps * (m_ * float(np.max(np.abs(xs_))) + float(np.max(np.abs(ys_))))
+                    rel_ = delta_ / np.maximum(np.minimum(yh_, yh_ - delta_) + 1.0, 1e-300)
+                    if np.any(yh_ - delta_ <= -1):
+                        continue
+                    d_ = np.abs(np.log(ys_ + 1.0) - np.log(yh_ + 1.0))
+                    noise_ = float(np.sum(2 * d_ * rel_ + rel_ * rel_))
+                    if abs(e_f - ref) > 1e-9 * (abs(ref) + 1e-12 * len(xs_)) + 4 * noise_:
                         ctx.fail('predicate', 'segment-partial-cost-equals-its-definition(rmsle: sum of squared log differences)', f'evaluation.compute_partial_cost[{kind}]', case,
                                  dict(segment=[a, b], impl=e_f, expected=ref))
                         break
